@@ -83,7 +83,10 @@ func firstLines(s string, n int) string {
 	return strings.Join(l, "\n")
 }
 
-const bound = 10 * time.Second
+// bound of every wait: three orders of magnitude above the observed latency of
+// the converter chain (milliseconds), small enough that a broken tree fails in
+// reasonable time.
+const bound = 5 * time.Second
 
 // ---------------------------------------------------------------- wire
 
@@ -128,6 +131,7 @@ type caseSpec struct {
 	Audio    bool   `json:"audio"`
 	CacheGop bool   `json:"cache_gop"`
 	NoSprop  bool   `json:"sdp_without_parameter_sets,omitempty"`
+	BadAac   bool   `json:"sdp_aac_config_undecodable,omitempty"` // config=00: the TS AAC packetizer has no ADTS template
 	SDP      string `json:"sdp,omitempty"` // overrides the built SDP (FuzzSdp)
 	Class    string `json:"class"`
 	Prefix   []pkt  `json:"prefix"`
@@ -158,6 +162,11 @@ func (c *caseSpec) codec() esgen.Codec {
 func buildSDP(c *caseSpec) string {
 	if c.SDP != "" {
 		return c.SDP
+	}
+	if c.BadAac && c.Audio {
+		cc := *c
+		cc.BadAac = false
+		return strings.Replace(buildSDP(&cc), "config="+hex.EncodeToString(esgen.RealAacASC), "config=00", 1)
 	}
 	if !c.NoSprop {
 		return mediah.SDP(c.codec(), c.Audio)
@@ -663,6 +672,9 @@ func continuation(r *rig, probe []probeAU, hasFLV, hasHLS bool, hlsBound time.Du
 	}
 	// (3) HLS: a closed segment holds one of the probe's key frames
 	if hasHLS {
+		if flvMiss != "" && hlsBound > time.Second {
+			hlsBound = time.Second // the frames did not even reach the FLV side: do not wait long again
+		}
 		ok := mediah.WaitFor(hlsBound, func() bool {
 			for _, au := range probe {
 				if r.hlsHas(au.vtag) {
